@@ -179,8 +179,16 @@ def one_case(version, rewritable, c):
         if version >= 5 and int(got.network_key.tx_counter) != int(want.network_key.tx_counter):
             out.append(f"network key frame counter: read back {got.network_key.tx_counter}, written {want.network_key.tx_counter}")
         if version > 4:
-            exp_hashed = want.stack_specific.get("ezsp", {}).get("hashed_tclk") or FIXED_RANDOM.hex()
+            exp_hashed = want.stack_specific.get("ezsp", {}).get("hashed_tclk")
             got_hashed = got.stack_specific.get("ezsp", {}).get("hashed_tclk")
+            if exp_hashed is None:
+                # none supplied: bellows generates one; which one is its business, but the one sent to the NCP in the security
+                # state must be the one read back (and a full 16-byte key)
+                sec = ctx.ncp.security_frames[n_sec:]
+                exp_hashed = bytes(sec[0].preconfiguredKey.serialize()).hex() if len(sec) == 1 else None
+                if exp_hashed is None or len(exp_hashed) != 32:
+                    out.append("no 16-byte hashed trust-centre link key was generated for the security state")
+                    exp_hashed = "00" * 16
             if got_hashed != exp_hashed:
                 out.append(f"hashed trust-centre link key: read back {got_hashed}, written {exp_hashed}")
             if bytes(got.tc_link_key.key.serialize()) != WELL_KNOWN:
